@@ -2,9 +2,9 @@
 import native
 
 
-def run_native(which, period, horizon, abort=None, stop_target=None, stall_at=None, stall=None):
+def run_native(which, period, horizon, abort=None, stop_target=None, stall_at=None, stall=None, period_us=None):
     out, _, rc, err = native.run('timers', which=which.split('::')[-1], period_ms=period, horizon_ms=horizon, abort_ms=abort, stop_target_ms=stop_target, stall_at_ms=stall_at, stall_ms=stall,
-                                 timeout=30)
+                                 period_us=period_us, timeout=30)
     if rc != 0:
         raise RuntimeError('native timer replay failed: ' + err[-300:])
     return [x for x in out.get('log', '').split(',') if x]
@@ -39,6 +39,12 @@ def replay(which):
         obs['zero'] = log
         if len(times(log, 'msg:')) != 1:
             bad.append('zero period: expected exactly one delivery')
+        # a positive period below the timer's millisecond granularity: not before the period has elapsed (the paused clock shows whole milliseconds)
+        log = run_native(w, 0, 50, period_us=900)
+        obs['submillisecond'] = log
+        t = times(log, 'msg:')
+        if len(t) != 1 or t[0] < 1:
+            bad.append('a 900 microsecond period: delivered at +%s ms, before the period elapsed' % t)
     elif w == 'send_interval':
         log = run_native(w, p, 560)
         obs['plain'] = log
@@ -71,4 +77,9 @@ def replay(which):
         obs['aborted'] = log
         if times(log, 'terminated:'):
             bad.append('aborted timer still stopped the actor')
+        log = run_native(w, 0, 50, period_us=900)
+        obs['submillisecond'] = log
+        t = times(log, 'terminated:')
+        if len(t) != 1 or t[0] < 1:
+            bad.append('a 900 microsecond period: the actor was stopped at +%s ms, before the period elapsed' % t)
     return {'replayed': bool(bad), 'detail': 'native %s scenarios: %s ; observations %s' % (w, bad, obs), 'replay': {'which': which}}
